@@ -94,22 +94,26 @@ type Conn struct {
 // Read messages in a loop.
 // If HTTP Server is reused, it is recommended to enable goroutine, as blocking will prevent the context from being GC.
 func (c *Conn) ReadLoop() {
+	verifSched("r.open", c)
 	c.handler.OnOpen(c)
 
 	// 无限循环读取消息, 如果发生错误则触发错误事件并退出循环
 	// Infinite loop to read messages, if an error occurs, trigger the error event and exit the loop
 	for {
+		verifSched("r.read", c)
 		if err := c.readMessage(); err != nil {
 			c.emitError(true, err)
 			break
 		}
 	}
 
+	verifSched("r.onclose", c)
 	err, ok := c.ev.Load().(error)
 	c.handler.OnClose(c, internal.SelectValue(ok, err, errEmpty))
 
 	// 回收资源
 	// Reclaim resources
+	verifSched("r.reclaim", c)
 	if c.isServer {
 		c.br.Reset(nil)
 		c.config.brPool.Put(c.br)
@@ -138,6 +142,7 @@ func (c *Conn) emitError(reading bool, err error) {
 		return
 	}
 
+	verifSched("c.cas", c)
 	if atomic.CompareAndSwapUint32(&c.closed, 0, 1) {
 		// 待发送的错误码和错误原因
 		// Error code to be sent and cause of error
@@ -191,6 +196,7 @@ func (c *Conn) emitClose(buf *bytes.Buffer) error {
 			responseCode = internal.CloseUnsupportedData
 		}
 	}
+	verifSched("c.cas", c)
 	if atomic.CompareAndSwapUint32(&c.closed, 0, 1) {
 		_ = c.writeClose(&CloseError{Code: realCode, Reason: buf.Bytes()}, responseCode.Bytes())
 	}
